@@ -322,7 +322,16 @@ func (s *state) Enqueue(task *Task) (nwait int) {
 	}
 	for _, task := range task.Phase() {
 		switch task.State() {
-		case TaskOk, TaskErr:
+		case TaskOk:
+		case TaskErr:
+			// The task failed fatally, e.g. in an earlier or concurrent
+			// evaluation. It will never become ready: record the error
+			// and keep its dependents from being scheduled.
+			if s.err == nil {
+				msg := fmt.Sprintf("error running %s", task.Name)
+				s.err = errors.E(msg, task.Err())
+			}
+			nwait++
 		case TaskWaiting, TaskRunning:
 			s.schedule(task)
 			nwait++
